@@ -461,3 +461,26 @@ def check_C09(c):
     c.assumptions += ["snapshot = names, types, modes, sizes, contents, link targets, mtimes of the whole served tree (atime excluded)",
                       "runs as root: permission bits do not protect the tree, so any leak through the gate is visible as a change"]
     return c.finish()
+
+
+def check_C19(c):
+    scen, cases = export_table(c, "HandshakeEnum", "HandshakeEnum.cfg", "scen_hs.json")
+    rc, out, path = c.run("TestVerif_Handshake", env={"VERIF_SCEN": scen}, timeout=3000)
+    traces = count_traces(c, path, ["case", "i"])
+    c.cov["exhaustive"] = c.tier == "thorough"
+    c.cov["rule"] = ("cases of the Handshake.tla tables: 800 configuration attempts (request lists of <=3 names over 3 supported + 4 invalid names, from two base configurations), "
+                     "2520 handshake replies (8 versions x 9 packet types x 5 extension lists x 7 framings), 64 (advertised set, extended-request name) pairs; "
+                     "quick replays all configuration/extension cases and a seeded third of the rejecting replies")
+    found = c.validate("TraceHS", "TraceHS.cfg", path)
+    for f in found:
+        e = f["line"]
+        msg = f["state"].get("c19", "").strip('"')
+        key = "Inv_C19,%s" % e.get("ev")
+        if e.get("ev") == "HSReply":
+            key += ",typ=%s,ver=%s,exts=%s,frame=%s" % (e.get("typ"), e.get("ver"), e.get("exts"), e.get("frame"))
+        elif e.get("ev") == "HSExt":
+            key += ",name=%s" % e.get("name")
+        c.violation(key, "%s: %s" % (msg, json.dumps(e)[:400]), {"module": "TraceHS", "case": e, "tlc": msg})
+    c.assumptions += ["SetSFTPExtensions is process-global: this driver runs alone in its process and restores the default list",
+                      "'any other name' is read as: any name outside the supported set (a supported extension that is not advertised is not constrained)"]
+    return c.finish()
